@@ -1,4 +1,5 @@
 import BfeVerif.C46.Seg
+import BfeVerif.C46.Proofs
 namespace BfeVerif.C46
 
 theorem take_split {α} (X : List α) (N m : Nat) (h : m ≤ N) : X.take N = X.take m ++ (X.drop m).take (N - m) := by
@@ -281,5 +282,193 @@ theorem parseV2Seg_result (r0 : Rdr) (e : EndK) (S L : Nat) (hK : r0.K S L) (hsi
                     have hsplit : r5.rest = (r5.need (be16 hi lo)).buf ++
                         (((r5.need (be16 hi lo)).segs.flatten).take (r5.need (be16 hi lo)).N) := by rw [← er]; rfl
                     rw [hsplit, tail_buf_eq _ _ _ _ _ (by omega) hv]
+
+theorem tailFree_consumed (b13 b14 : UInt8) (len : Nat) (X : Bytes) (n : Nat)
+    (h : (tailFree b13 b14 len X).consumed = some n) : n = 16 + len := by
+  unfold tailFree at h
+  repeat' split at h
+  all_goals (simp [Rd.consumed] at h; try omega)
+
+/-- what `parseVersion2` leaves in the reader is exactly the stream behind the header, whatever the segmentation -/
+theorem parseV2Seg_all (r0 : Rdr) (e : EndK) (S L : Nat) (hK : r0.K S L) (hsig : r0.buf.take 12 = sigV2) (n : Nat)
+    (hn : (parseV2Seg r0 e).1.consumed = some n) : (parseV2Seg r0 e).2.all = r0.all.drop n := by
+  have hbuf : r0.buf = sigV2 ++ r0.buf.drop 12 := by rw [← hsig, List.take_append_drop]
+  have hall : r0.all = sigV2 ++ ({ r0 with buf := r0.buf.drop 12 } : Rdr).all := by
+    simp only [Rdr.all]; rw [← List.append_assoc, ← hbuf]
+  have hK1 : ({ r0 with buf := r0.buf.drop 12 } : Rdr).K S L := hK
+  rw [hall]
+  unfold parseV2Seg at hn ⊢
+  generalize ({ r0 with buf := r0.buf.drop 12 } : Rdr) = r1 at hK1 hn ⊢
+  have hd : ∀ (X : Bytes) (k : Nat), (sigV2 ++ X).drop (12 + k) = X.drop k := by
+    intro X k; rw [← List.drop_drop]; simp [sigV2]
+  cases h1 : r1.readByte with
+  | none => simp only [h1, Rd.consumed] at hn; cases hn
+  | some p1 =>
+    obtain ⟨b13, r2⟩ := p1
+    obtain ⟨_, a1, hK2⟩ := readByte_some r1 S L hK1 b13 r2 h1
+    simp only [h1] at hn ⊢
+    by_cases c1 : b13 ≠ 0x20 ∧ b13 ≠ 0x21
+    · rw [if_pos c1] at hn; simp [Rd.consumed] at hn
+    · rw [if_neg c1] at hn ⊢
+      cases h2 : r2.readByte with
+      | none =>
+        obtain ⟨_, _, _, a2, _⟩ := readByte_none r2 S L hK2 h2
+        simp only [h2] at hn ⊢
+        split at hn
+        · simp only [Rd.consumed] at hn
+          have : n = 13 := by cases hn; rfl
+          subst this
+          show (r2.need 1).all = _
+          rw [a2, a1, show (13 : Nat) = 12 + 1 from rfl, hd]; simp
+        · simp [Rd.consumed] at hn
+      | some p2 =>
+        obtain ⟨b14, r3⟩ := p2
+        obtain ⟨_, a2, hK3⟩ := readByte_some r2 S L hK2 b14 r3 h2
+        simp only [h2] at hn ⊢
+        split at hn
+        · simp [Rd.consumed] at hn
+        · rename_i c2
+          simp only [c2, if_false]
+          cases h3 : r3.readByte with
+          | none => simp only [h3, Rd.consumed] at hn; cases hn
+          | some p3 =>
+            obtain ⟨hi, r4⟩ := p3
+            obtain ⟨_, a3, hK4⟩ := readByte_some r3 S L hK3 hi r4 h3
+            simp only [h3] at hn ⊢
+            cases h4 : r4.readByte with
+            | none => simp only [h4, Rd.consumed] at hn; cases hn
+            | some p4 =>
+              obtain ⟨lo, r5⟩ := p4
+              obtain ⟨_, a4, hK5⟩ := readByte_some r4 S L hK4 lo r5 h4
+              simp only [h4] at hn ⊢
+              split at hn
+              · simp [Rd.consumed] at hn
+              · rename_i c3
+                simp only [c3, if_false]
+                split at hn
+                · simp [Rd.consumed] at hn
+                · rename_i c4
+                  simp only [c4, if_false]
+                  obtain ⟨_, ea, _, _⟩ := rdr_need_spec r5 (be16 hi lo) (by omega) S L hK5
+                  split at hn
+                  · simp [Rd.consumed] at hn
+                  · rename_i c5
+                    simp only [c5, if_false]
+                    have hnn := tailFree_consumed _ _ _ _ _ hn
+                    subst hnn
+                    rw [a1, a2, a3, a4, show 16 + be16 hi lo = 12 + (4 + be16 hi lo) from by omega, hd]
+                    have : (b13 :: b14 :: hi :: lo :: r5.all).drop (4 + be16 hi lo) = r5.all.drop (be16 hi lo) := by
+                      rw [show 4 + be16 hi lo = be16 hi lo + 4 from by omega]; simp
+                    rw [this, ← ea]
+                    simp only [Rdr.all]
+                    rw [List.drop_append_of_le_length (by omega)]
+
+theorem buf_prefix (r : Rdr) (k : Nat) (h : k ≤ r.buf.length) : r.buf.take k = r.rest.take k := by
+  simp only [Rdr.rest]; rw [List.take_append_of_le_length h]
+
+theorem rest_len_of_buf (r : Rdr) (k : Nat) (h : k ≤ r.buf.length) : k ≤ r.rest.length := by
+  simp only [Rdr.rest, List.length_append]; omega
+
+theorem rh_np (env : Env) (b : UInt8) (t : Bytes) (a : Bool) (cb : b ≠ 0x50 ∧ b ≠ 0x0D) :
+    readHeader env (b :: t) a = .noProxy := by
+  unfold readHeader; simp only []; rw [if_pos cb]
+
+theorem rh_short5 (env : Env) (b : UInt8) (t : Bytes) (a : Bool) (cb : ¬ (b ≠ 0x50 ∧ b ≠ 0x0D))
+    (hl : (b :: t).length < 5) : readHeader env (b :: t) a = .err := by
+  unfold readHeader; simp only []; rw [if_neg cb, if_pos hl]
+
+theorem rh_short12 (env : Env) (b : UInt8) (t : Bytes) (a : Bool) (cb : ¬ (b ≠ 0x50 ∧ b ≠ 0x0D))
+    (h5 : ¬ (b :: t).length < 5) (hv : (b :: t).take 5 ≠ sigV1) (hl : (b :: t).length < 12) :
+    readHeader env (b :: t) a = .err := by
+  unfold readHeader; simp only []; rw [if_neg cb, if_neg h5, if_neg hv, if_pos hl]
+
+theorem rh_12 (env : Env) (b : UInt8) (t : Bytes) (a : Bool) (cb : ¬ (b ≠ 0x50 ∧ b ≠ 0x0D))
+    (h5 : ¬ (b :: t).length < 5) (hv : (b :: t).take 5 ≠ sigV1) (hl : ¬ (b :: t).length < 12) :
+    readHeader env (b :: t) a = if (b :: t).take 12 = sigV2 then parseV2 (b :: t) a else .noProxy := by
+  unfold readHeader; simp only []; rw [if_neg cb, if_neg h5, if_neg hv, if_neg hl]
+
+/-- the Peek(1)/Peek(5)/Peek(12) dispatch of `Read` over the segmented reader agrees with the chunk-free model on
+    every stream whose visible part does not carry the v1 signature -/
+theorem readHeaderSeg_spec (env : Env) (v1 : Rdr → Rd × Rdr) (r0 : Rdr) (e : EndK) (S L : Nat) (hK : r0.K S L)
+    (hv1 : r0.rest.take 5 ≠ sigV1) :
+    (readHeaderSeg v1 r0 e).1 = readHeader env r0.rest (decide (S ≥ L) || e == .eof) ∧
+    ((readHeaderSeg v1 r0 e).1 = .noProxy → (readHeaderSeg v1 r0 e).2.all = r0.all) ∧
+    (∀ n, (readHeaderSeg v1 r0 e).1.consumed = some n → (readHeaderSeg v1 r0 e).2.all = r0.all.drop n) := by
+  obtain ⟨e1, a1, K1, d1⟩ := rdr_need_spec r0 1 (by decide) S L hK
+  unfold readHeaderSeg
+  simp only []
+  cases hb : (r0.need 1).buf with
+  | nil =>
+    have hr : r0.rest = [] := by
+      rcases d1 with d | d
+      · simp [hb] at d
+      · rw [← e1, ← d, hb]
+    simp [hr, readHeader, Rd.consumed]
+  | cons b t =>
+    simp only []
+    have hrest : r0.rest = b :: (t ++ ((r0.need 1).segs.flatten).take (r0.need 1).N) := by
+      rw [← e1]; simp [Rdr.rest, hb]
+    by_cases cb : b ≠ 0x50 ∧ b ≠ 0x0D
+    · rw [if_pos cb]
+      refine ⟨?_, (fun _ => a1), (fun n hn => by simp [Rd.consumed] at hn)⟩
+      rw [hrest]; exact (rh_np env b _ _ cb).symm
+    · rw [if_neg cb]
+      obtain ⟨e5, a5, K5, d5⟩ := rdr_need_spec (r0.need 1) 5 (by decide) S L K1
+      by_cases c5 : ((r0.need 1).need 5).buf.length < 5
+      · rw [if_pos c5]
+        have hl : r0.rest.length < 5 := by
+          rcases d5 with d | d
+          · omega
+          · rw [← e1, ← e5, ← d]; exact c5
+        refine ⟨?_, (fun h => by simp at h), (fun n hn => by simp [Rd.consumed] at hn)⟩
+        rw [hrest] at hl ⊢
+        exact (rh_short5 env b _ _ cb hl).symm
+      · rw [if_neg c5]
+        have hp5 : ((r0.need 1).need 5).buf.take 5 = r0.rest.take 5 := by
+          rw [buf_prefix _ 5 (by omega), e5, e1]
+        have hl5 : ¬ r0.rest.length < 5 := by
+          have := rest_len_of_buf ((r0.need 1).need 5) 5 (by omega); rw [e5, e1] at this; omega
+        rw [hp5, if_neg hv1]
+        obtain ⟨e12, a12, K12, d12⟩ := rdr_need_spec ((r0.need 1).need 5) 12 (by decide) S L K5
+        by_cases c12 : (((r0.need 1).need 5).need 12).buf.length < 12
+        · rw [if_pos c12]
+          have hl : r0.rest.length < 12 := by
+            rcases d12 with d | d
+            · omega
+            · rw [← e1, ← e5, ← e12, ← d]; exact c12
+          refine ⟨?_, (fun h => by simp at h), (fun n hn => by simp [Rd.consumed] at hn)⟩
+          rw [hrest] at hl hl5 hv1 ⊢
+          exact (rh_short12 env b _ _ cb hl5 hv1 hl).symm
+        · rw [if_neg c12]
+          have hp12 : (((r0.need 1).need 5).need 12).buf.take 12 = r0.rest.take 12 := by
+            rw [buf_prefix _ 12 (by omega), e12, e5, e1]
+          have hl12 : ¬ r0.rest.length < 12 := by
+            have := rest_len_of_buf (((r0.need 1).need 5).need 12) 12 (by omega); rw [e12, e5, e1] at this; omega
+          have hrd : readHeader env r0.rest (decide (S ≥ L) || e == .eof) =
+              if r0.rest.take 12 = sigV2 then parseV2 r0.rest (decide (S ≥ L) || e == .eof) else .noProxy := by
+            rw [hrest] at hl5 hl12 hv1 ⊢
+            exact rh_12 env b _ _ cb hl5 hv1 hl12
+          by_cases cs : (((r0.need 1).need 5).need 12).buf.take 12 = sigV2
+          · rw [if_pos cs]
+            have hs' : r0.rest.take 12 = sigV2 := by rw [← hp12]; exact cs
+            have hres := parseV2Seg_result _ e S L K12 cs
+            rw [e12, e5, e1] at hres
+            refine ⟨by rw [hres, hrd, if_pos hs'], ?_, ?_⟩
+            · intro hnp
+              -- parseV2 never answers noProxy
+              exfalso
+              rw [hres] at hnp
+              have := readHeader_v2_sound env ((r0.rest).drop 12) (decide (S ≥ L) || e == .eof) .noProxy
+                (by
+                  have hsplit : r0.rest = sigV2 ++ r0.rest.drop 12 := by rw [← hs', List.take_append_drop]
+                  rw [← hsplit, hrd, if_pos hs']; exact hnp) (by simp)
+              rcases this with ⟨_, _, h⟩ | ⟨_, _, _, _, _, _, _, _, _, h⟩
+              · cases h
+              · rcases h with ⟨_, _, h⟩ | ⟨_, _, _, _, _, _, _, h⟩ <;> cases h
+            · intro n hn
+              rw [parseV2Seg_all _ e S L K12 cs n hn, a12, a5, a1]
+          · rw [if_neg cs]
+            have hs' : ¬ r0.rest.take 12 = sigV2 := by rw [← hp12]; exact cs
+            refine ⟨by rw [hrd, if_neg hs'], (fun _ => by rw [a12, a5, a1]), (fun n hn => by simp [Rd.consumed] at hn)⟩
 
 end BfeVerif.C46
